@@ -168,6 +168,71 @@ class FnSpec:
         return self.expl
 
 
+def known_lines_for(prop):
+    return [f for f in load_known_findings() if f.get("property") == prop and f.get("status") == "known"]
+
+
+def k2_run(prop, tier, seed):
+    import k2
+    r = k2.run(prop, tier, seed)
+    tags = {"C09": (), "C10": ("C10",), "C13": ("C10",), "C14": ()}.get(prop, ("C10",))
+    r["oracle_failures"] = [f for f in r["oracle_failures"] if any(f["oracle"].startswith(t) for t in tags)]
+    return r
+
+
+def k3_runner(which):
+    def run(prop, tier, seed):
+        import k3
+        t = time.time()
+        specs = {"c09": k3.scenarios_c09, "c13": k3.scenarios_c13, "c14": k3.scenarios_c14}[which](tier)
+        rs = k3.run_scenarios(specs, tier, seed)
+        out = k3.summarise("K3/" + which, rs, prop + "-schedule")
+        if which == "c14":
+            # known finding D18 (second form): two objects on one file inside a shared-memory buffered context
+            # share one container, so a lock-free reader races with the writer
+            known, new = [], []
+            for f in out["oracle_failures"]:
+                sp = f["spec"]
+                if sp["cls"].startswith("MemoryBuffered") and sp.get("buffered"):
+                    known.append(f)
+                else:
+                    new.append(f)
+            out["oracle_failures"] = new
+            out["known_hits"] = [{"scenario": f["scenario"], "detail": f["detail"][:200]} for f in known]
+        out["wall_s"] = round(time.time() - t, 1)
+        return out
+    return run
+
+
+class ConcSpec(FnSpec):
+    def __init__(self, runners, findings=(), **kw):
+        super().__init__(runners, **kw)
+        self.findings = findings
+
+    def probes(self, prop):
+        import probes
+        out = []
+        listed = {f["id"] for f in known_lines_for(prop)}
+        for fid in self.findings:
+            r = {"D18": probes.probe_d18, "D19": probes.probe_d19}[fid]()
+            if r["reproduced"]:
+                what = next((f["what"] for f in known_lines_for(prop) if f["id"] == fid), "")
+                line = f"KNOWN-FINDING: property={prop} {fid} {what[:160]}"
+                if fid in listed:
+                    out.append((line, True, None))
+                else:
+                    out.append((line, False, {"oracle": f"{fid}-not-listed", "detail": r}))
+        return out
+
+
+CONC_TRUST = ["deterministic scheduler harness (harness/k3.py): sys.settrace parking + re-entrant lock proxies installed through the module-global RLock, cls._locks, cls._cls_lock, cls._BUFFER_LOCK",
+              "lock-event recorder (harness/k2.py) and its fault injection from outside (rejected value, unparsable file, failing body, OSError in _save_to_resource, conflicting flush)",
+              "trace normalisation in Corr/K2.v: re-entrant acquisitions dropped, adjacent empty sections merged"]
+CONC_ASSUME = ["preemption inside one CPython bytecode / C call is not modelled (GIL-level atomicity of single container operations)",
+               "the operation table Conc.prog_of_op is hand-written; it is compared with the observed lock events for every (flavor, variant, kind, injectable fault set) on every run",
+               "operation bodies are abstract steps on the lock's component: that the body touches nothing else is established by the K3 schedule exploration (a sample)"]
+
+
 def k4_run(prop, tier, seed):
     import k4
     return k4.run(tier, seed)
@@ -181,6 +246,24 @@ CANDIDATES = {
     "C11": K1Spec("C11", ["C11"]),
     "C12": K1Spec("C12", ["C12", "C01", "C03-result"]),
     "C17": K1Spec("C17", ["C17"]),
+    "C16": K1Spec("MIX", ["C16"], extra=[lambda prop, tier, seed: __import__("k_extra").run_c16(prop, tier, seed)],
+                  note="aliasing cannot be expressed inside the functional model; the aliasing oracle mutates every container reachable from arguments and results"),
+    "C18": K1Spec("MIX", ["C18"], extra=[lambda prop, tier, seed: __import__("k_extra").run_c18(prop, tier, seed)]),
+    "C09": ConcSpec([k2_run, k3_runner("c09")], trust=CONC_TRUST, assume=CONC_ASSUME,
+                    expl="Theorems in coq/Props/C09.v: serializability of lock-protected operations for every schedule (any number of threads, locks, "
+                         "step granularity) + the computed fact that every mutator program is well locked; programs tied to the code by K2 lock-event "
+                         "traces (exhaustive over kinds x injectable faults), failing-input search = K3 schedule exploration on real threads."),
+    "C10": ConcSpec([k2_run, k3_runner("c13")], trust=CONC_TRUST, assume=CONC_ASSUME,
+                    expl="Theorems in coq/Props/C10.v: no_leak / respects_order decide the property for every fault assignment; no wait-for cycle under a strict lock "
+                         "order; computed for every operation program; K2 traces tie the programs to the code and check, after every faulted operation, "
+                         "that a second thread can still operate on the same and on another file; K3 detects deadlocks on real schedules."),
+    "C13": ConcSpec([k2_run, k3_runner("c13")], trust=CONC_TRUST, assume=CONC_ASSUME,
+                    expl="Theorems in coq/Props/C13.v: buffered mutators hold the class-wide buffer lock for their whole duration (computed), hence every schedule "
+                         "is serial (C09's theorem with one lock); K3 explores real schedules inside buffer_backend(capacity) incl. capacities forcing flushes."),
+    "C14": ConcSpec([k3_runner("c14")], findings=("D18",), trust=CONC_TRUST,
+                    assume=CONC_ASSUME + ["PARTIAL: the same-object case (and two objects sharing one container in the shared-memory strategy) is known finding D18"],
+                    expl="coq/Props/C14.v: full statement kept visible and refuted (D18); proved part: readers on objects no writer uses. "
+                         "K3 explores reader/writer schedules; the D18 probe re-confirms the finding on every run."),
     "C19": FnSpec([lambda prop, tier, seed: __import__("k_res").run(prop, tier, seed)],
                   trust=["fake numpy module (ndarray/number/bool_/iscomplexobj) injected in the C19 child process: numpy is absent from this sandbox",
                          "os.fork for fresh-vs-warm comparisons"],
